@@ -108,6 +108,10 @@ JumpClauses(c, j) ==
   ELSE
        (IF "RH" \in g
         THEN  (IF j.kind = "slip" THEN {}
+               \* a contact of the tabulated general-EOS solver is smeared over a cell: its measured speed is good to 0.5 %, and with a
+               \* density contrast of 50 that error times the jump of rho E exceeds any honest flux tolerance; what a contact must satisfy
+               \* (equal p, equal u, moves with the fluid) is judged below with the same measurements
+               ELSE IF j.kind = "contact" /\ RowOf(c).res = "geos" THEN {}
                ELSE IF j.kind = "isoshock"        \* heat-conducting gas: the temperature is continuous, the heat flux is not (no energy balance without it)
                THEN  Chk("RH.mass", Balanced(j.bal.mass, t)) \cup Chk("RH.mom",  Balanced(j.bal.mom, t))
                 \cup Chk("RH.isothermal", Balanced(j.cont.T, t)) \cup Chk("RH.shock-position", Balanced(j.cont.pos, t))
